@@ -1471,8 +1471,17 @@ class SymDict:
     def __init__(self):
         self.w = []
 
+    @staticmethod
+    def _nkey(k):
+        """a key proxy whose term is a constant becomes the ordinary integer"""
+        if isinstance(k, SymInt):
+            ks = z3.simplify(k.t)
+            if z3.is_bv_value(ks):
+                return ks.as_signed_long()
+        return k
+
     def __setitem__(self, k, v):
-        self.w.append((curguard(), k, v))
+        self.w.append((z3.simplify(curguard()), self._nkey(k), v))
 
     @staticmethod
     def _keq(k1, k2):
@@ -1483,8 +1492,17 @@ class SymDict:
         """(value term or None, presence condition)"""
         res = None
         pres = z3.BoolVal(False)
+        plain = (int, str, bytes, tuple, float, bool, type(None))
+        k = self._nkey(k)
+        kplain = type(k) in plain and not (type(k) is tuple and any(type(x) not in plain for x in k))
         for g, kk, v in self.w:
-            c = z3.simplify(z3.And(g, self._keq(kk, k)))
+            if kplain and type(kk) in plain and not (type(kk) is tuple and any(type(x) not in plain for x in kk)):
+                # both keys are ordinary values: no solver term needed (the guard was simplified when the write was recorded)
+                if kk != k or z3.is_false(g):
+                    continue
+                c = g
+            else:
+                c = z3.simplify(z3.And(g, self._keq(kk, k)))
             if z3.is_false(c):
                 continue
             if z3.is_true(c):          # an unconditional write of this key replaces whatever was stored before
